@@ -114,6 +114,9 @@ func loadProgram(repoDir, specDir string, patterns []string) (*Program, error) {
 	P.immutHeaps = map[string]bool{}
 	for path, ps := range P.specs {
 		sp := P.spkgs[path]
+		for _, c := range ps.ImmutCells {
+			P.immutHeaps["D_"+sanitize(c)] = true
+		}
 		for tn, fields := range ps.Immutable {
 			obj := sp.Pkg.Scope().Lookup(tn)
 			if obj == nil {
